@@ -111,6 +111,14 @@ CHECKS["C09"] = dict(level="exploration", ref="6/C09",
    note=DEC_NOTE + " Allocation failure is not injected. decoder_process on an idle decoder may return 0 instead of the documented <0.",
    technique=TECH + "; API-history search with misuse injection, crash points and an allocation ledger")
 
+CHECKS["C18"] = dict(level="exploration", ref="6/C18",
+   text="The hostile audio channel (silence, full-scale square, impulses, DC, noise at several levels, alternating silence/noise, speech with dropouts/clipping/bursts, float input up "
+        "to 1e6 x full scale, long streams: 30 s quick / 4 min thorough) over 2-6 utterances with CMN carried and exported/imported, run against a library built with UBSan "
+        "signed-integer-overflow and float-cast-overflow armed: every cepstral and dynamic-feature value finite, CMN text finite and a text-level fixpoint, every senone score of "
+        "every frame in range with best = 0 (compallsen), path scores <= 0 and above the floor, first and second (alignment) pass free of signed overflow.",
+   note=DEC_NOTE + " Only the undefined behaviour the property names is armed (no shift/alignment checks: negative left shifts are pervasive and benign here).",
+   technique=TECH + "; audio-channel fault injection with range/finite-value monitors under UBSan")
+
 NA = {
  "C02": "pure function of grammar, dictionary, model and frame scores: no schedule, fault, history or crash point; needs an independent max-plus reference (differential testing), another technique family",
  "C05": "pure function of one JSGF text (a compiler-correctness property): nothing to schedule or fault; language enumeration against a JSGF interpreter is the right tool",
